@@ -1,4 +1,4 @@
-package scipipe
+package main
 
 // Harness vocabulary. These functions have no body: the symbolic executor (gose)
 // intercepts them by name. (For native replay a second file provides bodies.)
